@@ -942,11 +942,16 @@ LEVEL_TEXT = ("Proved in Lean 4, for ALL inputs and histories, about the executa
               "order, bucket sharing or growth (hashmap_eq_of_histories); (4) Set: every history of insert/remove/clear/clone/Set(Array)/"
               "<< (also s << s)/+/&/- keeps the table well-formed and has exactly the members of the same history on predicates "
               "(set_refines); contains/containsAny/array()/== are the set relations on membership; (5) the pre-fix remove and == violate the "
-              "specification (counterexample theorems with concrete witnesses, replayed from corpus/C02). G: the hash-table constants "
+              "specification (counterexample theorems with concrete witnesses, replayed from corpus/C02); (6) capacity and enumeration: "
+              "nextPoT is the least power of two >= n for every n <= 2^32 (nextPoT_every_size, nextPoT_int), the bucket count is 2^e, "
+              "0 <= e <= 30, after every history (hashmap_size_pow2_every_history), length() <= (buckets+2)*7/8 unless capped for every "
+              "unshared history (hashmap_load_bound_unshared), and the Enumerators of HashMap/HashDic/Set/Map/Dic, transcribed with "
+              "checked reads, stay in bounds and visit every stored key exactly once in the modelled order after every history "
+              "(hashmap_enumerator_every_history, set_enumerator_every_history, map_enumerator_every_history). G: the hash-table constants "
               "(String hash multiplier, default size, growth rule, nextPoT shifts) are regenerated from HashMap.h on every run and the "
               "obligations gen_constants_ok / nextPoT_is_next_power_of_two are re-proved. K: histories over 6 container types (colliding "
               "keys, growth across 225 and 1793 entries, tables from 1 bucket up, sizes 0..6 probed exhaustively) under ASan/LSan compare "
-              "public observables AND, through `raw`, bucket count and unsorted enumeration order, so the model's hash functions, binOf, "
+              "public observables AND, through `raw`/`walk`/`pot`, bucket count, exact enumeration order (foreach and explicit Enumerator) and nextPoT, so the model's hash functions, binOf, "
               "rehash rule and chain order are tied to the code on every run; an independent python dict/set simulation judges the "
               "implementation alone.")
 LEVEL_NOTE = ("The loop/branch structure of the models is tied to the code by K only (no C++ -> Lean extraction); a code path no "
@@ -955,7 +960,11 @@ LEVEL_NOTE = ("The loop/branch structure of the models is tied to the code by K 
               "only by the `raw` observations (bucket count + enumeration order) and by G for the constants; a change there that keeps "
               "the container a correct finite map is reported as VIOLATION ... no-failing-input-found (model no longer describes the "
               "code), not as a failing input. HashMap has no merge member: merges are Map::add and Set::operator<<(Set) (both in the "
-              "history theorems, including self-merge). nextPoT: proved least power of two >= n for 1 <= n <= 4096 only; size hints "
+              "history theorems, including self-merge). nextPoT: proved least power of two >= n for EVERY n <= 2^32 (nextPoT_every_size; 0 and 1 give 1), on the C++ int "
+              "0 for n < 1 and <= 2^30 for n <= 2^30 (nextPoT_int; above 2^30 the int overflows - not modelled, not generated); the table "
+              "size is 2^e, 0 <= e <= 30, after every history incl. shared handles (hashmap_size_pow2_every_history) and "
+              "length() <= (buckets+2)*7/8 or the table is at its cap after every history without shared handles "
+              "(hashmap_load_bound_unshared; with shared handles growth is suppressed on purpose, so no bound); size hints "
               "below 1 are clamped to 1 by HashMap(int) since 16300ca (before: a 0-bucket table and an out-of-bounds read) and are "
               "generated (0, -1). Shared handles (HashMap c = m / operator=) are generated for the hash containers (ops `share`, in-place "
               "`dup`): in the MODEL one table object stands for a set of handles, so handles cannot split there by construction and "
@@ -965,9 +974,14 @@ LEVEL_NOTE = ("The loop/branch structure of the models is tied to the code by K 
               "not modelled beyond `rc` = number of handles. rehash_shared_noop / index_shared_keeps_size are definitional unfoldings of "
               "the model's `rc > 1` disjunct. Shared handles of the ORDERED Map/Dic are not generated: they share an Array, whose growth "
               "while shared is C01's known finding. Validated by K only: Array<T>::insert/remove/clone as "
-              "list operations (C01), chain nodes' new/delete and the LeakSanitizer verdict, const operator[] default objects, the "
-              "foreach/Enumerator plumbing (s << s around the growth threshold runs rehash inside the enumeration of s itself; exercised "
-              "under ASan, modelled as enumerate-then-insert, equal by K). Equality/merge theorems for hash containers assume both tables "
+              "list operations (C01), chain nodes' new/delete and the LeakSanitizer verdict, const operator[] default objects. The "
+              "Enumerators are now modelled as coded (HashMap.walk: constructor skipping the header slots, operator bool, operator++ with "
+              "the settle loop; Map.walk: index loop) with every array read checked, and proved to stay inside the table, never "
+              "dereference null and yield exactly the enumeration / the sorted array after every history "
+              "(hashmap_enumerator(_every_history), set_enumerator_every_history, map_enumerator_every_history, "
+              "enumerator_needs_a_bucket); tied by K ops `raw`/`dump` (foreach macros) and `walk` (explicit Enumerator, Set::array()) as "
+              "the exact sequence. Still by K only: mutation DURING an enumeration (s << s around the growth threshold runs rehash inside the enumeration of s itself; exercised "
+              "under ASan, modelled as enumerate-then-insert, equal by K), and the Enumerator's pointer-level state (a node pointer is a list suffix). Equality/merge theorems for hash containers assume both tables "
               "use the same hash function (true for one key type). Known finding index-assign-from-own-element: `m[k] = m[j]` on an "
               "ordered Map/Dic with k or j absent reads the right-hand reference after the left-hand operator[] has shifted / "
               "reallocated the flat array (wrong value or use after free); not repairable inside operator[]; the generator excludes "
